@@ -128,6 +128,10 @@ pub fn c03_cells(ctx: &Ctx) -> Vec<Cell> {
     cells.extend(extra_cells(ctx.seed, if ctx.thorough() { 24 } else { 6 }));
     // integer extremes (the C03 statement's envelope is the C05 one: "every valid parameter set")
     cells.extend(crate::envelope::hyper_huge_cells());
+    // the discrete families at the extremes the constructors accept (n = u64::MAX, n = inf, lambda near
+    // MAX_LAMBDA, p = 2^-53): their supports are stated for every valid parameter set. The float-shape extremes
+    // of C05's E+ (shape = MIN_POSITIVE, MAX/4) stay outside: there the documentation promises no finite result.
+    cells.extend(crate::termination::extreme_cells().into_iter().filter(|c| matches!(c.fam, Fam::Binomial | Fam::Zipf | Fam::Zeta | Fam::Geometric | Fam::Hypergeometric | Fam::Poisson)));
     // documented-infinite special cases, asserted on every stream class (outside E, fixed)
     cells.push(Cell::new(Fam::Exp, Ft::F64, &[0.0]));
     cells.push(Cell::new(Fam::Exp, Ft::F32, &[0.0]));
